@@ -449,3 +449,50 @@ func onlyEmptyInput(b *ssa.BasicBlock, f *ssa.Function) bool {
 	}
 	return false
 }
+
+// MSGP-ALL (reported under MSGP): an encoder writes every field, whatever its value.
+//
+// The generated decoders assign only the keys they find, so a field the encoder leaves out (msgp's omitempty form:
+// `if z.Width == 0 { … skip … }`) keeps whatever the receiver held: a zero field does not survive a round trip into
+// a value that was in use. Obligation per EncodeMsg / MarshalMsg method: no call of a msgp Write*/Append* function
+// is dominated by an integer equality test against a constant (tests of errors against nil and the bounds of range
+// loops are what the always-write form has).
+func ruleMsgpAll(p *Prog, r *Report) {
+	for _, f := range libMethodsNamed(p, map[string]bool{"EncodeMsg": true, "MarshalMsg": true}) {
+		if f.Blocks == nil {
+			continue
+		}
+		key := fnName(f) + " | every field is written whatever its value"
+		bad := ""
+		nw := 0
+		eachCall(f, func(site ssa.CallInstruction) {
+			sc := site.Common().StaticCallee()
+			if sc == nil || sc.Pkg == nil || !strings.HasSuffix(sc.Pkg.Pkg.Path(), "tinylib/msgp/msgp") {
+				return
+			}
+			if !(strings.HasPrefix(sc.Name(), "Write") || strings.HasPrefix(sc.Name(), "Append")) {
+				return
+			}
+			nw++
+			for _, cd := range condsAt(site.Block()) {
+				bo, ok := cd.V.(*ssa.BinOp)
+				if !ok || (bo.Op != token.EQL && bo.Op != token.NEQ) {
+					continue
+				}
+				_, cx := constInt(bo.X)
+				_, cy := constInt(bo.Y)
+				if (cx || cy) && bad == "" {
+					bad = fmt.Sprintf("%s at %s is written only under the value test at %s: a field that is left out keeps the receiver's previous value on decoding, so its zero value does not survive a round trip into a value that was in use", shortCallee(site.Common()), p.posStr(instrPos(site)), p.posStr(bo.Pos()))
+				}
+			}
+		})
+		if nw == 0 {
+			continue
+		}
+		if bad != "" {
+			r.Bad("MSGP", key, p.posStr(f.Pos()), bad)
+		} else {
+			r.OK("MSGP", key, p.posStr(f.Pos()), fmt.Sprintf("%d msgp writes, none under a test of a value", nw))
+		}
+	}
+}
